@@ -102,6 +102,15 @@ Theorem c17_block_inv : forall e assets s s' d g id,
 Proof. exact begin_block_asset_inv. Qed.
 Print Assumptions c17_block_inv.
 
+(* market.BeginBlocker never panics on a store whose records satisfy the ring invariant and
+   re-establishes it (so, by induction over blocks from the empty store, no block of any history
+   panics - the block-level form of "never indexes outside its window or panics") *)
+Theorem c17_block_no_panic : forall e assets s,
+  1 <= bb_n e -> StoreInv (bb_n e) s ->
+  exists s' d, begin_block e assets s = Ok (s', d) /\ StoreInv (bb_n e) s'.
+Proof. exact begin_block_no_panic. Qed.
+Print Assumptions c17_block_no_panic.
+
 (* ---- formerly refuted, now proved: the two defects repaired in /repo by "fix:" commits ---- *)
 
 (* window size 1 (C17-F1): the first sample completes the window; any history is panic-free and
